@@ -74,3 +74,13 @@ Proof.
   rewrite Rmult_0_r, Rplus_0_r in H. exact H.
 Qed.
 Print Assumptions C02_zero_nucleation_never_increases.
+
+(* the step as the model runs it (the state handed to getdXdt is zeroed in place below the thresholds before the
+   flux step, and again before the statistics): the density bound and non-negativity hold for the whole of it, from
+   any non-negative stored distribution - in particular one whose lowest classes are populated after a re-mesh *)
+Theorem C02_full_step_density_bound dt bounds psd g nucRate Rnuc rdfi minR sz :
+  wf bounds psd g -> incr bounds -> nonneg psd -> length sz = length psd -> 0 < dt -> 0 <= nucRate ->
+  sumR (fullStep dt bounds psd g nucRate Rnuc rdfi minR sz) <= sumR psd + dt * nucRate /\
+  nonneg (fullStep dt bounds psd g nucRate Rnuc rdfi minR sz).
+Proof. exact (fullStep_density_bound dt bounds psd g nucRate Rnuc rdfi minR sz). Qed.
+Print Assumptions C02_full_step_density_bound.
